@@ -535,7 +535,7 @@ class C19(Prop):
             if w <= 8:
                 yield run(w, None, mixed_steps(rng, 3 * n), f"file-cycle-w{w}-mixed")
         # --- widths 14 / 16 (and all others): start from a hand-written file near the maximum -----
-        for w in WIDTHS:
+        for w in WIDTHS + [54, 64]:       # (54, 64: beyond the precision of a double - a bound computed in floating point is off by one there)
             mx = (1 << w) - 1
             for k in (0, 1, 2, 5):
                 start = max(mx - k, 0)
@@ -666,9 +666,9 @@ class C19(Prop):
             w_new = rng.choice(small + [14])
             yield free(phases, w_new, 2 * min(1 << w_new, 64) + 3, "switch-mem-chain-any")
         # `count` (a public attribute) set to an integer outside the width, with and without a switch
-        for w in small + [14, 16]:
+        for w in small + [14, 16, 54, 64]:
             top = 1 << w
-            for x in (top, top + 5, 3 * top + 1, -1, -top - 3, (1 << 64) + 3, 10 ** 30, top - 1, 0):
+            for x in (top, top + 5, 3 * top + 1, -1, -top - 3, (1 << 64) + 3, 10 ** 30, top - 1, top - 2, 0):
                 k = rng.randint(0, 2 * min(top, 40))
                 yield free([[w, k, rng.choice(vias)]], w, min(top, 40) + 3, "count-assigned", count=x)
                 w2 = rng.choice(small)
